@@ -1,3 +1,4 @@
+#include <limits.h>
 #include <stdio.h>
 #include <stdlib.h>
 
@@ -520,6 +521,17 @@ char *convert_enum_val(struct enum_def *e_def, long val)
 	list_for_each_entry(e_val, &e_def->vals, list) {
 		if (e_val->val == val)
 			return xstrdup(e_val->str);
+	}
+
+	/*
+	 * A negative enumerator of an int-sized enum was saved from a whole
+	 * register with the upper half clear: look for it as a 32-bit value.
+	 */
+	if (val > INT_MAX && val <= (long)UINT_MAX) {
+		list_for_each_entry(e_val, &e_def->vals, list) {
+			if (e_val->val == (int)val)
+				return xstrdup(e_val->str);
+		}
 	}
 
 	/* if not, try OR-ing bit flags */
